@@ -74,6 +74,12 @@ fn scenario(ctx: &Ctx, idx: u64) -> Report {
         net.set_send_yield(*[0.0, 0.0, 0.3, 1.0].choose(&mut rng).unwrap());
         let dht = spawn_node(&net, &cfg);
         report.evaluations += 1;
+        // other API calls (state polling) racing the deliveries that complete the bootstrap
+        let hammer = if rng.gen_bool(0.5) {
+            Some(crate::world::api_hammer(&net, &dht, addr, seed, *[0.1, 0.5, 1.0].choose(&mut rng).unwrap(), 3000))
+        } else {
+            None
+        };
 
         // Some early searches are issued in the very tick a datagram reaches the node (e.g. the
         // first replies of the bootstrap), so that the API call and the network event race.
@@ -124,6 +130,9 @@ fn scenario(ctx: &Ctx, idx: u64) -> Report {
             .await
             .unwrap_or(false);
         let t_boot = net.now();
+        if let Some(h) = &hammer {
+            report.add("api_calls_racing_deliveries", h.lock().unwrap().calls);
+        }
         if !booted {
             report.count("precondition_miss_not_bootstrapped");
             for (_, _, h) in handles {
